@@ -68,9 +68,11 @@ def logX (Lx _Ly : Nat) : List Op :=
 def logZ (_Lx Ly : Nat) : List Op :=
   [ lineOp ((pyRange2 1 (2 * Ly + 1)).map fun y => [1, y]) Pauli.Z ]
 
-/-- `get_deformation(location, deformation_name, deformation_axis)`; `none` = ValueError -/
-def getDeformation (name axis : String) (loc : Coord) : Option PauliMap :=
-  deformBy qubitAxis name axis loc
+/-- `get_deformation(location, deformation_name, deformation_axis='y')`; `none` = ValueError.
+    `axis = none`: the caller does not pass `deformation_axis` (as `deform(name)` of the visualizer
+    and of the simulation inputs without `deformation_kwargs`), the signature default `'y'` applies -/
+def getDeformation (name : String) (axis : Option String) (loc : Coord) : Option PauliMap :=
+  deformBy qubitAxis name (axis.getD "y") loc
 
 def lattice (Lx Ly : Nat) : Lattice where
   qubits := qubits Lx Ly
